@@ -906,7 +906,9 @@ def toy_pool_cases(rng, n):
               (["1", "1"], [("2", 1), ("3", 1)]), (["1", "6"], [("3", 1), ("6", 1)]), (["1", "1", "1"], [("1", 2), ("3", 1)]),
               (["1", "1", "1"], [("1", 1), ("1C", 1), ("3", 1)]), (["1"], [("1", 1)]), (["1", "1"], [("3", 2)]), (["1", "1", "1"], [("1C", 3)]),
               # structures WITHOUT a full gene copy: some regions have copy number 0 on every copy
-              (["4"], [("4#1", 1)]), (["5"], [("5", 1)]), (["4", "6"], [("4#3", 1), ("6", 1)])]
+              (["4"], [("4#1", 1)]), (["5"], [("5", 1)]), (["4", "6"], [("4#3", 1), ("6", 1)]),
+              # the same pattern of copy counts (one default copy + one fusion), different copy numbers per region
+              (["1", "4"], [("1", 1), ("4#1", 1)]), (["1", "5"], [("1", 1), ("5", 1)])]
     out = []
     # DESIGN.md section 5 item 8: A = 2x*1, B = 3x*1, T>A (sub-allele 1.002) on 5 of 30 reads
     p = [m for m in sites if m[1] == "T>A" and g.get_rsid(m) == "rs28371732"][0]
@@ -919,6 +921,9 @@ def toy_pool_cases(rng, n):
         if not (m[1].startswith("ins") or m[1].startswith("del")) and j % 2 == 0:
             out.append({"id": f"w-regionless-{j}", "table": [[list(m), 20]], "shapes": [3, 11, 12]})
             out.append({"id": f"w-regionless-b-{j}", "table": [[list(m), 20]], "shapes": [0, 13]})
+            # a variant on 12 of 40 reads: above the single-copy threshold of two copies (0.2), below that of one copy (0.33)
+            out.append({"id": f"w-same-pattern-{j}", "table": [[list(m), 12], [[m[0], "_"], 28]], "shapes": [14, 15]})
+            out.append({"id": f"w-same-pattern-b-{j}", "table": [[list(m), 7], [[m[0], "_"], 33]], "shapes": [15, 14]})
     for k in range(n):
         d = rng.choice([10, 20, 30])
         table = []
